@@ -235,12 +235,27 @@ class VLoop(asyncio.SelectorEventLoop):
 
 
 class RecProc:
-    """recording stand-in for reactor.processes"""
+    """recording stand-in for reactor.processes; `arm(name)` makes the NEXT call of that callback raise
+    ProcessError once (the API helper's pipe breaks, Processes respawns it): name in
+    fsm (next FSM event) / fsm_idle (next FSM event reporting IDLE, i.e. inside Peer._close or Peer.stop) /
+    up / down / connected / message (any per-message event: message, packets, notification, negotiated ...)"""
 
     def __init__(self, rig):
         self.rig = rig
         self.terminate_on_error = False
         self.fail_up = False
+        self.armed = None
+
+    def arm(self, name):
+        self.armed = name
+
+    def _maybe_fail(self, name):
+        if self.armed == name:
+            from exabgp.reactor.api.processes import ProcessError
+
+            self.armed = None
+            self.rig.log.append(['api', 'failed', name, self.rig.fsm()])
+            raise ProcessError()
 
     def broken(self, neighbor):
         return False
@@ -251,20 +266,30 @@ class RecProc:
 
             self.rig.log.append(['api', 'up-failed'])
             raise ProcessError()
+        self._maybe_fail('up')
         self.rig.log.append(['api', 'up'])
 
     def down(self, neighbor, reason=''):
+        self._maybe_fail('down')
         self.rig.log.append(['api', 'down'])
 
     def connected(self, neighbor):
+        self._maybe_fail('connected')
         # accept() and connect() number the transport just before reporting it
         self.rig.log.append(['api', 'connected', self.rig.next_tid - 1])
+
+    def fsm(self, neighbor, fsm):
+        if int(fsm.state) == IDLE:
+            self._maybe_fail('fsm_idle')
+        self._maybe_fail('fsm')
 
     def __getattr__(self, name):
         if name.startswith('__'):
             raise AttributeError(name)
 
         def rec(*a, **k):
+            if name in ('message', 'packets', 'notification', 'negotiated', 'refresh', 'update', 'operational', 'signal'):
+                self._maybe_fail('message')
             return None
 
         return rec
@@ -307,7 +332,8 @@ def classify_written(raw):
 class Rig:
     """one real Peer under the virtual loop"""
 
-    def __init__(self, conf=CONF, local_rid='10.0.0.5'):
+    def __init__(self, conf=CONF, local_rid='10.0.0.5', api_subs=False):
+        self.api_subs = api_subs
         from exabgp.environment import getenv
         from exabgp.configuration.configuration import Configuration
         from exabgp.reactor.loop import Reactor
@@ -342,10 +368,21 @@ class Rig:
         self.proc = RecProc(self)
         self.reactor.processes = self.proc
         (self.key, self.neighbor), = self.configuration.neighbors.items()
-        self.neighbor.api['neighbor-changes'] = True
+        self.apply_api(self.neighbor)
         self.peer = Peer(self.neighbor, self.reactor)
         self.reactor._peers[self.key] = self.peer
         self.task = None
+
+    def apply_api(self, neighbor):
+        """what `api { processes [..]; neighbor-changes; }` gives; with api_subs also fsm, negotiated and every
+        receive-/send- message event in parsed form (each is one more call into reactor.processes)"""
+        neighbor.api['neighbor-changes'] = True
+        if self.api_subs:
+            for key in list(neighbor.api):
+                if key in ('fsm', 'negotiated', 'receive-parsed', 'send-parsed') or (
+                    key.split('-')[0] in ('receive', 'send') and key.split('-', 1)[1] in ('open', 'keepalive', 'update', 'notification', 'refresh', 'operational')
+                ):
+                    neighbor.api[key] = True
 
     # ---- patches (all restored by close())
 
@@ -571,7 +608,11 @@ class Rig:
         conn = Incoming(AFI.ipv4, '127.0.0.2', '127.0.0.1', io)
         conn.writing = lambda: True  # the kernel poll of the generator writer
         self.ev('Incoming')
-        denied = self.reactor.handle_connection(self.key, conn)
+        try:
+            denied = self.reactor.handle_connection(self.key, conn)
+        except Exception as exc:  # an API failure inside handle_connection reaches the listener
+            self.log.append(['escaped', 'handle_connection', type(exc).__name__])
+            denied = None
         # Listener.new_connections logs "refused" and drops the generator without running it
         res = 'denied' if denied else 'accepted'
         del denied, conn
@@ -701,7 +742,7 @@ def wire(kind):
     raise KeyError(kind)
 
 
-def run_script(steps, conf=CONF, gap=0.5, trace_exc=False):
+def run_script(steps, conf=CONF, gap=0.5, trace_exc=False, api_subs=False):
     """steps: list of [what, arg]; what in
          'tick'            let time pass until the peer starts a new attempt (bounded) or `arg` seconds
          'connect_ok' / 'connect_fail'
@@ -714,7 +755,7 @@ def run_script(steps, conf=CONF, gap=0.5, trace_exc=False):
          'refresh'         queue a ROUTE-REFRESH (what the API command does)
          'upfail'          Processes.up raises ProcessError from now on
     -> dict(log=[...], final_fsm, hung=[tids], skipped=[indices of steps that had no transport/connect to act on])"""
-    rig = Rig(conf)
+    rig = Rig(conf, api_subs=api_subs)
     skipped = []
     exc = []
 
@@ -774,12 +815,15 @@ def run_script(steps, conf=CONF, gap=0.5, trace_exc=False):
                 if not rig.reactor.reload():
                     raise RuntimeError(f'scripted reload refused: {rig.configuration.error}')
                 for n in rig.configuration.neighbors.values():
-                    n.api['neighbor-changes'] = True
+                    rig.apply_api(n)
             elif what == 'teardown_race':
                 # arg = [code, kind]: API teardown, and `kind` arrives while the loop is in its last 1 ms pause
                 rig.ev('Teardown', arg[0])
                 rig.race = arg[1]
                 rig.reactor.teardown_peer(rig.key, arg[0])
+            elif what == 'apifail':
+                rig.proc.arm(arg)  # the next call of that API callback raises ProcessError, once
+                continue
             elif what == 'silence':
                 await asyncio.sleep(arg)
             elif what == 'teardown':
@@ -793,10 +837,16 @@ def run_script(steps, conf=CONF, gap=0.5, trace_exc=False):
                 rig.peer.reconfigure()
             elif what == 'remove':
                 rig.ev('Remove', None)
-                rig.peer.remove()
+                try:
+                    rig.peer.remove()
+                except Exception as exc:  # an API failure inside the call reaches the caller (API command / reload)
+                    rig.log.append(['escaped', 'remove', type(exc).__name__])
             elif what == 'shutdown':
                 rig.ev('Shutdown', None)
-                rig.peer.shutdown()
+                try:
+                    rig.peer.shutdown()
+                except Exception as exc:  # an API failure inside the call reaches the caller (API command / reload)
+                    rig.log.append(['escaped', 'shutdown', type(exc).__name__])
             elif what == 'refresh':
                 from exabgp.bgp.message.refresh import RouteRefresh
                 from exabgp.protocol.family import AFI, SAFI
@@ -836,6 +886,7 @@ def run_script(steps, conf=CONF, gap=0.5, trace_exc=False):
             'final_fsm': rig.fsm(),
             'hung': sorted(rig.hung),
             'skipped': skipped,
+            'task_exception': (type(rig.task.exception()).__name__ if rig.task.done() and not rig.task.cancelled() and rig.task.exception() else None),
             'wedged': getattr(rig, 'wedged', []),
             'owned_open': (rig.cur_io().tid if rig.cur_io() is not None and not rig.cur_io().closed else 0),
             'task_done': rig.task.done(),
